@@ -45,15 +45,23 @@ CLAIMS = {
                      "(node-limit pre-check with symbolic limit; a parser that raises SQLParseError with or without a segment, or returns "
                      "None, yields a PRS violation and never raises), Linter.render_string (SQLTemplaterError / SQLFluffSkipFile raised "
                      "after 0..2 variants are captured), SequentialRunner (an arbitrary exception while linting one file is swallowed and "
-                     "the other files still lint). Every other harness in this suite also treats an undeclared exception as a violation.",
-                note="Crash-freedom of the whole pipeline over arbitrary SQL is not encodable. Known findings F1 (dangling refs -> "
+                     "the other files still lint). Whole run under a SYMBOLIC node limit: Linter.lint_string (all default rules, fix mode; "
+                     "thorough also lint mode) on two inputs with max_parse_nodes a z3 integer - every comparison of the node count with "
+                     "the limit in the initial parse, the pre-check and every re-parse validating a fix is solver-decided, so every "
+                     "interval of limits is one path: it returns for every limit. lint_parsed over every parsed / not-parsed combination "
+                     "of the variants of a real jinja if/else file. Every other harness also treats an undeclared exception as a violation.",
+                note="Crash-freedom of the whole pipeline over arbitrary SQL is not encodable. F27 (re-parse crossing the limit) fixed. Known findings F1 (dangling refs -> "
                      "RuntimeError) and F3 (python templater AssertionError) are crashes and are reported as KNOWN-FINDING here."),
     "C05": dict(design_ref="§3 C05", technique=SYM + FORK.replace("through the real CLI on real files", "on the real kernel and, where expressible, by linting rendered SQL in 4 dialects"),
                 text="Anchored kernels only: (1) the real Rule_LT08._eval forward scan never raises for ANY sequence of <=4 (thorough 6) "
                      "segments of 7 kinds (comma, newline, whitespace, comment, code, CYCLE keyword, bracketed) following a CTE bracket; "
                      "(2) the real BaseRule.crawl converts an exception raised by _eval at any visited segment into exactly one "
-                     "'Unexpected exception' violation and does not raise.",
-                note="The other ~70 rules' _eval bodies are outside (not encodable as kernels). F2 fixed."),
+                     "'Unexpected exception' violation and does not raise; (3) EVERY bundled rule, lint and fix mode, on every slot "
+                     "combination of four construct families parsed by the real parser (CASE incl. no-WHEN and nested forms; CAST / "
+                     "CONVERT / :: incl. 1- and 3-argument calls under 4 casting styles; CTE followed by comments / brackets / set "
+                     "operators; SELECT targets x table forms x joins x tails) in ansi (thorough: + postgres, tsql, bigquery, snowflake): "
+                     "no 'Unexpected exception' violation.",
+                note="Rule bodies are exercised only on the listed construct families; other constructs are outside. F2, F28, F29 fixed."),
     "C06": dict(design_ref="§3 C06", technique=SYM + "; plus z3 Fixedpoint (Datalog) FIRST-set closure over every dialect's live grammar graph",
                 text="(1) For all 28 dialects z3's Datalog engine computes FIRST(node) over the complete grammar graph and shows that the "
                      "live simple() hint of EVERY hinted element (thousands per dialect) contains every token class the element can start "
@@ -61,7 +69,8 @@ CLAIMS = {
                      "viable option. (2) Real prune_options over options with arbitrary hints (None / raw sets / type sets) keeps "
                      "exactly the options whose hint admits the first non-whitespace token. (3) Lexing file B after an arbitrary file A "
                      "in the same process (class-level BlockTracker state, incl. a block left open) yields the same segments modulo "
-                     "uuid renaming.",
+                     "uuid renaming. (4) The per-parse-context cache of simple(): every sequence of 3 (thorough 4) calls over a grammar, "
+                     "its insert / remove / terminator copies and an unrelated grammar in 2 contexts returns each object's own hint.",
                 note="Assumes leaf parsers' own hints; the parse cache keyed without inherited terminators and equality of whole trees "
                      "on real SQL are outside (stub-level cache divergences are not replayable through the API)."),
     "C07": dict(design_ref="§3 C07", technique=SYM,
@@ -79,14 +88,18 @@ CLAIMS = {
                 text="The marker-free fast path of JinjaTemplater.process: z3 shows that no string without a match of the gate regex (read "
                      "from the AST) contains a begin-delimiter of the LIVE Environment, that newline normalisation leaves no CR, and the "
                      "six-flag gate condition is explored exhaustively on the real process(); live env facts keep_trailing_newline/"
-                     "newline_sequence are checked.",
-                note="Narrow claim: Jinja's own rendering semantics and that trace() returns render_func(raw_str) are outside."),
+                     "newline_sequence are checked. Slow path: for every template of <=2 (thorough 3) blocks from a 14-block alphabet "
+                     "(expressions, whitespace control, if/else, for, set, comment, undefined name, 'is defined') x contexts with "
+                     "absent / falsy / truthy values the primary rendering of the real JinjaTemplater.process equals a plain jinja2 render.",
+                note="Known finding F25 (an undefined variable becomes a truthy stand-in object): while listed, templates that reference "
+                     "an undefined name are compared with Jinja rendering the same stand-in. Macros, libraries, dbt builtins are outside."),
     "C09": dict(design_ref="§3 C09", technique=SYM + "; plus z3 regex queries on the dot-notation re.sub pattern (read from the AST) with replay vs str.format",
                 text="(1) placeholder: output == source with each matched span replaced by its configured value or its name (quotation "
                      "kept), for all spans/texts within <=2..4 parameters. (2) python dot-notation hack: z3 finds no valid format string "
                      "(small alphabet, length<=8) without dotted fields that the hack rewrites, and no dotted field (length<=12) that it "
                      "fails to rewrite; every model is replayed against the real templater vs a string.Formatter reference. (3) "
-                     "_slice_template tiling as in C07.",
+                     "_slice_template tiling as in C07. (4) whole PythonTemplater.process on every <=3 (thorough 4) piece template x contexts: "
+                     "rendered == str.format.",
                 note="Known findings F3, F4 (escaped braces) excluded by pattern; F19 (spec with whitespace) fixed. format_spec mini-language "
                      "and conversions on dotted names are outside."),
     "C10": dict(design_ref="§3 C10/C11/C30", technique=SYM,
@@ -140,7 +153,8 @@ CLAIMS = {
     "C28": dict(design_ref="§3 C28", technique=SYM + " (finite shape space enumerated through solver-decided forks)",
                 text="Real to_tuple/structural_simplify/as_record on real segment trees of every shape up to depth 2 with duplicate type "
                      "names, with and without positions: the in-order leaf texts of the record equal the tree's leaves (and concatenate "
-                     "to the text) and the record's nesting equals the tree's.",
+                     "to the text) and the record's nesting equals the tree's; plus one node with 1..10 children of forked types (more "
+                     "children than a record has bookkeeping keys), with and without positions.",
                 note="The CLI parse command's human/yaml/json writers are outside."),
     "C29": dict(design_ref="§3 C29", technique="solver-based: z3 Fixedpoint (Datalog) reachability over the live grammar object graph of "
                 "every dialect + z3 regex-inclusion query for lexer totality", engine="z3-direct",
@@ -159,9 +173,11 @@ CLAIMS = {
     "C15": dict(design_ref="§3 C15", technique=SYM + " (finite input space enumerated through solver-decided forks)",
                 text="Real Rule_CP01._handle_segment/_get_fix (inherited by CP02-CP05) on a real keyword token for EVERY text over "
                      "{a,B,1,_} of length <=3 (thorough 4) x 7 policies x 5 memory states: a produced fix replaces exactly the anchored "
-                     "token, keeps its type and lower(fixed) == lower(raw).",
-                note="Known finding CP_SNAKE (the snake policy inserts underscores) excluded by pattern. Which segments the crawler "
-                     "selects and non-ASCII case maps are outside."),
+                     "token, keeps its type and lower(fixed) == lower(raw). Token selection: real crawl + _eval of CP01-CP05 on "
+                     "file > statement > grandparent > parent > token for 11 token kinds x 7 parent x 4 grandparent types x 2 policies: "
+                     "quoted identifiers, string literals, comments and whitespace are never rewritten.",
+                note="Known finding CP_SNAKE (the snake policy inserts underscores) excluded by pattern; F26 (comments inside a datatype) "
+                     "fixed. Dialect-specific token classes and non-ASCII case maps are outside."),
     "C18": dict(design_ref="§3 C18", technique=SYM + FORK,
                 text="Real cli._paths_fix/_stdin_fix/_handle_unparsable, Linter.lint_paths apply gate, LintedDir.add/discard_fixes..., "
                      "api.simple.fix over real LintedFile objects holding every subset of {TMP, PRS, fixable lint, unfixable lint} "
@@ -174,8 +190,11 @@ CLAIMS = {
     "C19": dict(design_ref="§3 C19", technique=SYM + FORK,
                 text="Differential over the same LintedFile: exit code and 'modified?' of cli._paths_fix vs _stdin_fix vs api.simple.fix, "
                      "and records/stats of lint_paths vs the stdin/API assembly, for every kind/flag subset. Known disagreements F21, "
-                     "F23, F24 (each confirmed with the real CLI by path vs via stdin) are excluded by pattern.",
-                note="Narrow: that the three routes compute the same LintedFile (config discovery, stdin filename, encoding) is I/O and outside."),
+                     "F23, F24 (each confirmed with the real CLI by path vs via stdin) are excluded by pattern. Same project, three "
+                     "routes: a real project directory per path with forked .sqlfluff settings (disable_noqa, rules, exclude_rules, "
+                     "warnings) x inline directive x noqa comment; the real CLI by path, the real CLI via --stdin-filename and the Python "
+                     "API report the same violations / produce the same fixed text and exit code.",
+                note="Encoding and settings outside the pool are outside. F30 (inline rule directives ignored by lint_string) fixed."),
     "C20": dict(design_ref="§3 C20", technique=SYM,
                 text="Real IgnoreMask.ignore_masked_violations / _should_ignore_violation_line_range / generate_warnings_for_unused over "
                      "<=2 directives x <=2 violations (thorough 3x2, 2x3) with UNBOUNDED symbolic line numbers, every action (plain/"
@@ -224,8 +243,8 @@ CLAIMS = {
                      "LintedFile's violations are sorted and unique.",
                 note="Violation objects are real SQLLintError/SQLParseError with duck-typed rule/segment/fix stubs."),
     "C32": dict(design_ref="§3 C32", technique=SYM + " (operation sequence solver-forked; real files; fresh-subprocess baseline)",
-                text="Narrow: every sequence of 2 (thorough 3) operations (lint / parse / render) over 5 real files (plain, jinja blocks, "
-                     "parse error, noqa, inline config) with a shared or fresh Linter: each lint equals the file's fresh-process baseline "
+                text="Narrow: every sequence of 2 (thorough 3) operations (lint / parse / render / lint the whole directory in one run) over "
+                     "6 real files (plain, jinja blocks, parse error, noqa, inline config, inline rule exclusion) with a shared or fresh Linter: each lint equals the file's fresh-process baseline "
                      "and no input file's bytes or mtime change. allowed_rule_ref_map: references expand identically whether or not it "
                      "was called before on the same map; rule entries are never altered. BlockTracker class state does not change "
                      "file B's segments (see C06).",
